@@ -39,3 +39,24 @@ Proof.
     + intros ->. discriminate H2.
 Qed.
 Print Assumptions C05_never_an_artefact.
+
+(* ---- kind F: ALL plain programs, ALL schedules incl. caller cancellation ----------------------------------------------------------
+   what run reports as PipelineResult.error was raised by a node body of this program at the attempt it names (with some argument
+   list), by an event manager or by the artifact store, or is the pool-not-ready error -- and it is an Exception; what run raises
+   is such an exception or the caller's CancelledError. Never a CancelledError of its own helper tasks, an internal lookup error or
+   the engine's "no result" errors. (The interpreter's out-of-fuel artefact is the one model-only alternative in the second clause:
+   excluded on the catalogue by the certificates; the driver reports it on every compared run.) Proofs/PlainErrors.v proves more:
+   every exception in flight anywhere -- thrown into a frame, held by a frame, the result of any task -- has such an origin. *)
+From MLPE Require Import Proofs.PlainWorld Proofs.PlainLive Proofs.PlainErrors.
+
+Theorem C05_on_plain_programs_reported_errors_are_genuine :
+  forall P, plain_prog P -> forall st, reachable P st ->
+    (forall e, main_state st = Some (TDone (SResErr e)) -> raised P e /\ is_Exception e = true) /\
+    (forall e, main_state st = Some (TDone (SThrow e)) ->
+               e = XCancelled \/ raised P e \/ e = XEng EOutOfFuel (b_input (build (p_decls P) (p_inp P) (p_out P)))).
+Proof. exact plain_errors_are_genuine. Qed.
+Print Assumptions C05_on_plain_programs_reported_errors_are_genuine.
+
+Example C05_plain_not_vacuous :
+  match main_state (auto_run cat_rhombus_fail 40 init_state) with Some (TDone (SResErr (XNode _ _ _))) => True | _ => False end.
+Proof. vm_compute. exact I. Qed.
